@@ -227,6 +227,27 @@ func (c *Checker) RunGoals(goals []*Goal, timeout time.Duration) []*ObligResult 
 		wg.Add(1)
 		go func() {
 			defer wg.Done()
+			// quantifier-free relaxation first: dropping quantified assumptions only
+			// weakens the premises, so `unsat` there is a proof of the full query.
+			if g.Expect == "unsat" && !strings.Contains(g.Goal.S, "(forall") && !strings.Contains(g.Goal.S, "(exists") {
+				var qf []LogItem
+				dropped := false
+				for _, it := range g.Prefix {
+					if it.Kind == LAssume && (strings.Contains(it.T.S, "(forall") || strings.Contains(it.T.S, "(exists")) {
+						dropped = true
+						continue
+					}
+					qf = append(qf, it)
+				}
+				if dropped {
+					q := RenderQuery(c.E.Specs.Prelude, qf, g.Goal, "")
+					r := c.Solver.SolveQuick(g.Oblig+"-qf", q)
+					if r.Status == "unsat" {
+						results[i] = gr{g, r}
+						return
+					}
+				}
+			}
 			q := RenderQuery(c.E.Specs.Prelude, g.Prefix, g.Goal, "")
 			results[i] = gr{g, c.Solver.Solve(g.Oblig, q)}
 		}()
